@@ -843,6 +843,24 @@ example : expandVariables demoEnv
        ("port", .str "2222"), ("identityfile", .list ["/home/lu/.ssh/id_web1.example.com", "/home/lu/lu-bob"]),
        ("user", .str "bob"), ("compression", .str "%h")] := by decide
 
+/-! ## history independence: several lookups on one SSHConfig object -/
+
+/-- **Every lookup depends on its own hostname only.**  For every parsed config and every history of lookups on the
+same object — including lookups that raise — the k-th answer is the one-shot answer for the k-th hostname, and the
+object is unchanged. -/
+theorem lookupSession_spec (env : Env) (blocks : List Block) (hosts : List String) :
+    lookupSession env blocks hosts = (blocks, hosts.map (lookup env blocks)) := by
+  induction hosts with
+  | nil => rfl
+  | cons h hs ih => simp [lookupSession, lookupStep, ih]
+
+/-- a lookup that raises (CanonicalizeMaxDots present) between two ordinary ones changes nothing for them -/
+example : (lookupSession demoEnv
+      [⟨some ["*"], none, [("user", .str "global")]⟩, ⟨some ["bad"], none, [("canonicalizemaxdots", .str "x")]⟩]
+      ["a", "bad", "a"]).2
+    = [.ok [("user", .str "global"), ("hostname", .str "a")], .error .canonUnsupported,
+       .ok [("user", .str "global"), ("hostname", .str "a")]] := by rfl
+
 /-! ## get_hostnames: every Host pattern, for every parseable config -/
 
 def hostPatterns : Line → List String
